@@ -568,3 +568,48 @@ def r7(R):
         for v in vs:
             R.violation(v.node, v.message, g, v.path)
     R.require(sites >= 2, 'no _readCurrent drop sites found')
+
+
+@rule('C03.R8', 'readCurrent records the dependency on every path (only a '
+      'new object, which has no committed revision, is exempt)',
+      min_instances=1)
+def r8(R):
+    cls = R.prog.cls(CONN)
+    f = R.method(cls, 'readCurrent')
+    g, b, F = R.cfg(f, cls, max_depth=0)
+    R.instance('Connection.readCurrent')
+    from ..flow import implied_atoms
+
+    def edge(node, st, lab, tgt):
+        if node.kind == 'test' and lab in ('T', 'F'):
+            for e, truth in implied_atoms(node.ast, lab):
+                if isinstance(e, ast.Compare) and len(e.ops) == 1 and any(
+                        isinstance(x, ast.Attribute) and x.attr == '_p_serial'
+                        for x in (e.left, e.comparators[0])) and any(
+                            dotted(x) == ('z64',)
+                            for x in (e.left, e.comparators[0])):
+                    is_new = isinstance(e.ops[0], ast.Eq) == truth
+                    if is_new:
+                        return 'new'
+        if lab != 'e':
+            for op in F.ops(node):
+                if op.kind == 'setitem' and path_is(op.path,
+                                                    ('self', '_readCurrent')):
+                    return 'recorded'
+        return st
+
+    def at(node, st):
+        if node.id == g.exit_return and st not in ('recorded', 'new'):
+            return Violation(
+                'readCurrent can return without recording the object\'s '
+                'serial: the transaction then commits although the object '
+                'it declared it depends on was changed concurrently (e.g. '
+                'when the object was dirty at the time and the change is '
+                'later rolled back)')
+        return st
+
+    vs, stats = explore(g, 'none', at=at, edge=edge)
+    R.count(stats)
+    for v in vs:
+        R.violation((f.module.relpath, f.qualname, 'dependency recorded'),
+                    v.message, g, v.path)
